@@ -66,6 +66,7 @@ fn run_g<C: Codec>(c: &Case, _trace: bool) -> RunOut {
             return out;
         }
     };
+    out.mix(&enc);
     match refcodec::ref_decode(c.fam, &enc) {
         Ok(got) => {
             if got.canon() != a.canon() {
